@@ -49,6 +49,14 @@ Theorem C11_observations : forall (T : Type) (s : matrix T), Inv s ->
     then nth_error (nth (N.to_nat r) (abs s) []) (N.to_nat c) else None.
 Proof. exact @observe_refines. Qed.
 
+(* iterating: all cells read in row-major order are the rows one after the other (which is also
+   the stored data), in column-major order the columns one after the other *)
+Theorem C11_iteration_orders : forall (T : Type) (s : matrix T), Inv s ->
+  obs_elements s = map Some (concat (abs s)) /\
+  obs_column_major s = map Some (concat (spec_transpose (abs s))) /\
+  m_data s = concat (abs s).
+Proof. exact @iteration_orders. Qed.
+
 (* an operation panics EXACTLY when its documented precondition fails (index beyond the allowed
    range, removing the only or a non-existent row / column, too few supplied values, a retention
    accepting no row or no column), and a panicking call leaves the matrix exactly as it was *)
@@ -109,6 +117,7 @@ Print Assumptions C11_refines.
 Print Assumptions C11_final_state.
 Print Assumptions C11_step.
 Print Assumptions C11_observations.
+Print Assumptions C11_iteration_orders.
 Print Assumptions C11_preconditions_panic.
 Print Assumptions C11_constructors.
 Print Assumptions C11_generated_constructors.
